@@ -21,6 +21,12 @@ QUOTINGS = ["minimal", "all"]
 LINE_DELIMITERS = ["lf", "cr", "crlf", "any"]
 
 
+class OddlyNamedStream(io.StringIO):
+    def __init__(self, text, name):
+        super().__init__(text, newline="")
+        self.name = name
+
+
 def spell_delimiter(d):
     if d == "\t":
         return "tab"
@@ -91,11 +97,15 @@ def check(ctx, fmt, ncols, table, via_validating_api, via_file=False, label=None
             back = list(rowio.delimited_rows(path, data_format))
             ctx.count("roundtrips.via-file")
         else:
-            out = io.StringIO(newline="")
+            # (every other time through streams that carry an odd 'name', like spooled temporary files or open(fd) do)
+            odd = len(table) % 2 == 1
+            out = OddlyNamedStream("", [None, "", 0, 3][len(table) % 4]) if odd else io.StringIO(newline="")
             writer = rowio.DelimitedRowWriter(out, data_format)
             writer.write_rows(table)
             text = out.getvalue()
-            back = list(rowio.delimited_rows(io.StringIO(text, newline=""), data_format))
+            back = list(rowio.delimited_rows(OddlyNamedStream(text, None) if odd else io.StringIO(text, newline=""), data_format))
+            if odd:
+                ctx.count("roundtrips.via-oddly-named-streams")
     except Exception as error:
         key = "C12:roundtrip-error:%s" % type(error).__name__
         if label:
